@@ -375,6 +375,20 @@ def chunked(xs, k):
     return [xs[i::k] for i in range(k)]
 
 
+def by_known(fams, k):
+    """executor processes for plugin-level families: all families of one process start from the same known-endpoints file,
+    so that the file is written once per process - the refreshers of the plugin instances started earlier in the process
+    (a restart is a new instance, the old one keeps ticking) never see a new modification time and stay inert"""
+    groups = {}
+    for f in fams:
+        key = json.dumps(f["known"], sort_keys=True) if f["mode"] == "plugin" else "direct"
+        groups.setdefault(key, []).append(f)
+    out = []
+    for key, fs in sorted(groups.items()):
+        out += chunked(fs, max(1, round(k * len(fs) / len(fams))))
+    return out
+
+
 BUGS_DIRECT = ["per_result", "overwrite", "noop", "internal_counted", "batch_total", "restart_keeps"]
 BUGS_PLUGIN = ["stop_at_garbage", "fresh_state"]
 WITNESSES = ["MC_W_TwoEndpoints", "MC_W_SwapDuringFlush", "MC_W_CountsSurviveRefresh"]
@@ -426,9 +440,9 @@ def run(ctx):
         if name == "mc":
             return parallel(mc, jobs, n=4 if not T else 4)
         if name == "enum":      # spec -> code: TLC-enumerated words x compositions x restart points, both levels
-            return judge(ctx, binary, chunked(efams, 4 if not T else 10), "enum")
+            return judge(ctx, binary, by_known(efams, 4 if not T else 10), "enum")
         if name == "rand":      # code -> spec: seeded random long streams
-            return judge(ctx, binary, chunked(rdir, 2 if not T else 4) + chunked(rplug, 2 if not T else 4), "rand")
+            return judge(ctx, binary, chunked(rdir, 2 if not T else 4) + by_known(rplug, 2 if not T else 4), "rand")
         return judge(ctx, binary, [[f] for f in tfams], "tree")      # one plugin process per lifetime (real ticker)
 
     def timed(name):
@@ -454,7 +468,7 @@ def run(ctx):
     apply(ctx, r_enum, "enumerated words (both levels)")
     apply(ctx, r_rand, "random streams")
     apply(ctx, r_tree, "known-endpoints refresh under the real ticker")
-    if r_tree["refreshes"] == 0:
+    if r_tree["refreshes"] == 0 and not r_tree["viol"]:
         raise Broken("vacuous: no refresh of the known-endpoints tree was observed")
     ctx.notes.append("named deviation D1 (generate_request is mapped by remedy_with_action.go but refused by the decoder; P accepts both readings): "
                      "%d such lines were delivered" % (r_enum["open_lines"] + r_rand["open_lines"]))
